@@ -16,6 +16,7 @@ Model summary (see DESIGN.md 4.3):
 """
 
 import copy
+import os
 import pickle
 import queue as _queue
 import sys
@@ -90,7 +91,7 @@ class Frame:
 class Feeder:
     """Feeder thread of one process for one queue."""
 
-    __slots__ = ("proc", "q", "buffer", "phase", "frame", "chunk_i", "chunk_left", "sent", "label", "dropped")
+    __slots__ = ("proc", "q", "buffer", "phase", "frame", "chunk_i", "chunk_left", "sent", "label", "dropped", "lost_at_exit")
 
     def __init__(self, proc, q):
         self.proc = proc
@@ -105,6 +106,7 @@ class Feeder:
         if proc.feeders:  # a process feeding a second, third ... queue
             self.label += chr(ord("a") + len(proc.feeders))
         self.dropped = 0
+        self.lost_at_exit = 0
 
     def busy(self):
         return self.phase != "idle" or bool(self.buffer)
@@ -222,9 +224,19 @@ class SimQueue(_Guarded):
         obj = f.buffer.popleft()
         try:
             data = obj.data if type(obj) is _Pickled else pickle.dumps(obj, protocol=pickle.HIGHEST_PROTOCOL)
-        except Exception as e:  # Queue._on_queue_feeder_error: traceback is printed, item is dropped
+        except Exception as e:
             f.dropped += 1
             self.world.note_probe("feeder_pickle_error")
+            if getattr(f.proc, "exiting", False):
+                # Queue._feed: "if is_exiting(): info('error in queue thread: %s', e); return" - once the
+                # process is in util._exit_function() the feeder thread ENDS on such an error, and
+                # whatever is still buffered behind the offending item is never sent (the join of the
+                # feeder thread then returns and the process exits normally)
+                self.world.note_probe("feeder_ended_on_error_while_exiting")
+                f.lost_at_exit = getattr(f, "lost_at_exit", 0) + len(f.buffer)
+                f.buffer.clear()
+                return "pickle-error %s while exiting: feeder thread ends" % type(e).__name__
+            # Queue._on_queue_feeder_error: traceback is printed, item is dropped
             if self.maxsize:
                 self.sem_used -= 1
             return "pickle-error %s" % type(e).__name__
@@ -774,6 +786,7 @@ class SimProcess(_Guarded):
         self.label = None
         self.ordinal = None
         self.dead = False
+        self.exiting = False  # inside util._exit_function()
         self._exitcode = None
         self.pid_ = None
         self.feeders = []
@@ -926,6 +939,7 @@ class ParentProc:
     name = "MainProcess"
     daemon = False
     dead = False
+    exiting = False
     pid = 999
     pid_ = 999
     exitcode = None
@@ -952,6 +966,19 @@ class ParentProc:
 
     def fault_withholds_feeder(self, f):
         return False
+
+    # what multiprocessing.parent_process() hands to a worker: the main process never dies in this
+    # fault model, so a worker that asks always finds it alive (a process-status seam like any other)
+    ident = 999
+
+    def is_alive(self):
+        WORLD.seam(Op("is_alive", "P"))
+        return not self.dead
+
+    def __getattr__(self, name):
+        if name.startswith("__") and name.endswith("__"):
+            raise AttributeError(name)
+        raise SimUnsupported("unsupported-attribute:ParentProcess.%s" % name)
 
 
 class SimWorld:
@@ -1072,6 +1099,10 @@ class SimWorld:
                 raise
             code = 1
             self.note_probe("worker_uncaught_exception")
+            if os.environ.get("VERIF_DEBUG_EXC"):  # diagnostic aid, never set by the registered commands
+                import traceback
+
+                traceback.print_exc()
         if not proc.dead:
             proc.dead = True
             self._release_fds(proc)
@@ -1087,6 +1118,7 @@ class SimWorld:
                 }
 
     def _exit_flush(self, proc):
+        proc.exiting = True  # util._exit_function() sets _exiting before it runs the finalizers
         fs = [f for f in proc.feeders if proc not in f.q.cancel_join]
         if fs:
             self.seam(Op("exit-flush", proc.label, can_run=lambda: not any(f.busy() for f in fs)))
@@ -1251,6 +1283,7 @@ class SimWorld:
             if not p.dead:
                 self.note_probe("atexit_join_of_live_child")
                 self.seam(Op("atexit-join", p.label, can_run=lambda p=p: p.dead))
+        self.parent.exiting = True
         for f in self.parent.feeders:
             if self.parent not in f.q.cancel_join:
                 self.seam(Op("atexit-flush", "P", can_run=lambda f=f: not f.busy()))
